@@ -390,7 +390,16 @@ func sameGV(a, b GV) bool {
 	return true
 }
 
+// every call is made with the target as it comes (pointer fields nil); when the type has pointers it is made once more with the
+// tagged pointer-to-struct fields preset to structs of the caller's
 func unmarshalCase(line string, rep *Report, fnd *Findings) {
+	unmarshalCaseV(line, rep, fnd, false)
+	if strings.Contains(line, `"k":"ptr"`) {
+		unmarshalCaseV(line, rep, fnd, true)
+	}
+}
+
+func unmarshalCaseV(line string, rep *Report, fnd *Findings, preset bool) {
 	var gl struct {
 		Doc    Doc    `json:"doc"`
 		Twin   Doc    `json:"twin"` // if present: the node-set is the query's result in doc followed by its result in twin
@@ -467,7 +476,7 @@ func unmarshalCase(line string, rep *Report, fnd *Findings) {
 	}
 	holder := reflect.New(rt) // *T, non-nil
 	var presets []presetPtr
-	if hash64([]byte(line))%2 == 0 {
+	if preset {
 		prefillP(holder.Elem(), &gl.Type, &presets)
 	} else {
 		prefill(holder.Elem(), &gl.Type)
